@@ -11,6 +11,24 @@ using namespace CDNS;
 
 static std::string g_dir;
 
+// Passive observers of the codec calls the writers make (the real deflate / lzma_code are called unchanged): they classify each pass so that
+// the exploration can show that it reached the codec states that matter - a pass that consumed only part of the chunk (output space ran
+// out first), and a stream finish that needed more than one pass.
+#include <dlfcn.h>
+static uint64_t g_gz_partial = 0, g_gz_finish_more = 0, g_xz_partial = 0, g_xz_finish_more = 0, g_gz_nothing = 0;
+extern "C" int deflate(z_streamp s, int flush) {
+    static auto real = (int (*)(z_streamp, int))dlsym(RTLD_NEXT, "deflate"); uInt in0 = s->avail_in; int r = real(s, flush);
+    if (flush == Z_NO_FLUSH && s->avail_in != 0) { if (s->avail_in != in0) g_gz_partial++; else g_gz_nothing++; }
+    if (flush == Z_FINISH && r == Z_OK) g_gz_finish_more++;
+    return r;
+}
+extern "C" lzma_ret lzma_code(lzma_stream* s, lzma_action act) {
+    static auto real = (lzma_ret (*)(lzma_stream*, lzma_action))dlsym(RTLD_NEXT, "lzma_code"); size_t in0 = s->avail_in; lzma_ret r = real(s, act);
+    if (act == LZMA_RUN && s->avail_in != 0 && s->avail_in != in0) g_xz_partial++;
+    if (act == LZMA_FINISH && r == LZMA_OK) g_xz_finish_more++;
+    return r;
+}
+
 static bool gunzip1(const std::string& z, std::string& out, std::string& why) {
     out.clear(); if (z.empty()) { why = "empty file"; return false; }
     z_stream s; memset(&s, 0, sizeof s); if (inflateInit2(&s, 31) != Z_OK) { why = "init"; return false; }
@@ -39,6 +57,7 @@ static std::string payload(size_t n, int cls, unsigned salt) {
     case 0: break;                                                                                      // zeros
     case 1: for (size_t i = 0; i < n; i++) s[i] = "query response example.com "[(i + salt) % 27]; break; // text-like
     case 2: { uint64_t x = 88172645463325252ULL + salt; for (size_t i = 0; i < n; i++) { x ^= x << 13; x ^= x >> 7; x ^= x << 17; s[i] = (char)x; } break; } // incompressible
+    case 4: { uint64_t x = 88172645463325252ULL + salt; for (size_t i = 0; i < n; i++) { x ^= x << 13; x ^= x >> 7; x ^= x << 17; s[i] = (i % 8 < 5) ? "abcde"[i % 8] : (char)x; } break; } // mixed: short matches between random literals (deflate blocks end often and are large)
     case 3: { static const unsigned char gz[] = {0x1f, 0x8b, 8, 0, 0, 0, 0, 0, 0, 3, 3, 0, 0, 0, 0, 0, 0, 0, 0, 0}; for (size_t i = 0; i < n; i++) s[i] = (char)gz[i % sizeof gz]; break; }  // looks already gzipped
     }
     return s;
@@ -52,7 +71,7 @@ struct CV { std::string key, what; };
 // comp: 1 gzip, 2 xz ; sink: 0 name, 1 fd
 static void run_seq(int comp, int sink, const std::vector<Step>& steps, Result& R, std::vector<CV>& out) {
     std::string base = g_dir + "/c" + std::to_string(getpid()) + "_"; std::vector<std::string> names; std::vector<std::string> expect(1);
-    const char* ext = comp == 1 ? ".gz" : ".xz";
+    const char* ext = comp == 1 ? ".gz" : ".xz"; uint64_t c0[5] = {g_gz_partial, g_gz_finish_more, g_xz_partial, g_xz_finish_more, g_gz_nothing};
     auto newname = [&]() { std::string n = base + std::to_string(names.size()); names.push_back(n); return n; };
     auto opensink = [&](const std::string& n) { return open(n.c_str(), O_WRONLY | O_CREAT | O_TRUNC, 0600); };
     {
@@ -66,6 +85,7 @@ static void run_seq(int comp, int sink, const std::vector<Step>& steps, Result& 
             R.count("transitions");
         }
     }
+    R.count("gz_partial_input_passes", g_gz_partial - c0[0]); R.count("gz_finish_multipass", g_gz_finish_more - c0[1]); R.count("xz_partial_input_passes", g_xz_partial - c0[2]); R.count("xz_finish_multipass", g_xz_finish_more - c0[3]); R.count("gz_output_only_passes", g_gz_nothing - c0[4]);
     for (size_t i = 0; i < names.size(); i++) {
         std::string path = names[i] + (sink == 0 ? ext : ""); struct stat st; std::string tag = std::string(comp == 1 ? "gzip" : "xz") + (sink ? "|fd" : "|name");
         if (stat(path.c_str(), &st) != 0) { out.push_back({"missing-output|" + tag, "output " + std::to_string(i) + " not found under " + path.substr(path.rfind('/') + 1)}); continue; }
@@ -78,6 +98,30 @@ static void run_seq(int comp, int sink, const std::vector<Step>& steps, Result& 
     }
 }
 
+// end to end: the same records exported through CdnsExporter with compression `comp` and without; decompressed output must equal the plain one
+static void run_export(int comp, int sink, int nrec, int kind, Result& R, std::vector<CV>& out) {
+    std::string base = g_dir + "/e" + std::to_string(getpid()) + "_"; uint64_t c0[4] = {g_gz_partial, g_gz_finish_more, g_xz_partial, g_xz_finish_more};
+    auto doit = [&](CborOutputCompression cc, const std::string& name) {
+        BlockParameters bp; bp.storage_parameters.max_block_items = kind == 0 ? 10000 : 97; std::vector<BlockParameters> bps = {bp}; FilePreamble fp(bps);
+        std::unique_ptr<CdnsExporter> e; if (sink == 0) e.reset(new CdnsExporter(fp, name, cc)); else e.reset(new CdnsExporter(fp, open(name.c_str(), O_WRONLY | O_CREAT | O_TRUNC, 0600), cc));
+        uint64_t x = 88172645463325252ULL;
+        for (int i = 0; i < nrec; i++) { GenericQueryResponse q; q.ts = Timestamp(1600000000 + i / 50, (i * 7919) % 1000000); q.client_port = (uint16_t)(i * 31); q.transaction_id = (uint16_t)i; q.query_size = 40 + i % 60; q.response_size = 100 + (i * 13) % 1400;
+            std::string nm(12 + i % 20, 0); for (auto& ch : nm) { x ^= x << 13; x ^= x >> 7; x ^= x << 17; ch = (char)('a' + (x >> 11) % (kind == 2 ? 256 : 26)); } q.query_name = nm + std::string("\x07""example\x03""com\x00", 13);
+            std::string ip(4, 0); for (auto& ch : ip) { x ^= x << 13; x ^= x >> 7; x ^= x << 17; ch = (char)(x >> 9); } q.client_ip = ip; q.server_ip = std::string("\xc0\x00\x02\x01", 4); q.query_rcode = i % 5; q.response_delay = (int64_t)(x % 100000);
+            e->buffer_qr(q); R.count("transitions"); }
+    };
+    std::string pn = base + "plain", cn = base + "comp"; const char* ext = comp == 1 ? ".gz" : ".xz";
+    doit(CborOutputCompression::NO_COMPRESSION, pn); doit(comp == 1 ? CborOutputCompression::GZIP : CborOutputCompression::XZ, cn);
+    R.count("gz_partial_input_passes", g_gz_partial - c0[0]); R.count("gz_finish_multipass", g_gz_finish_more - c0[1]); R.count("xz_partial_input_passes", g_xz_partial - c0[2]); R.count("xz_finish_multipass", g_xz_finish_more - c0[3]);
+    std::string tag = std::string("export|") + (comp == 1 ? "gzip" : "xz") + (sink ? "|fd" : "|name"); std::string cpath = cn + (sink == 0 ? ext : "");
+    std::string expect = slurp(pn), z = slurp(cpath), plain, why; bool ok = comp == 1 ? gunzip1(z, plain, why) : unxz1(z, plain, why);
+    R.count("export_plain_bytes", expect.size());
+    if (expect.size() < 1000) out.push_back({"harness|" + tag, "plain export is empty"});
+    if (!ok) out.push_back({"not-one-complete-stream|" + tag, why});
+    else if (plain != expect) { size_t p = 0; while (p < plain.size() && p < expect.size() && plain[p] == expect[p]) p++; out.push_back({"content-differs|" + tag, "decompressed export has " + std::to_string(plain.size()) + " bytes, the plain export " + std::to_string(expect.size()) + ", first difference at " + std::to_string(p)}); }
+    unlink(pn.c_str()); unlink(cpath.c_str()); unlink((cn + ext + ".part").c_str());
+}
+
 int main(int argc, char** argv) {
     Args a = Args::parse(argc, argv); g_dir = scratch_dir(); Result total; bool T = a.thorough();
     auto done = [&](int rc) { a.finish(total); rm_rf(g_dir); return rc; };
@@ -85,13 +129,16 @@ int main(int argc, char** argv) {
         if (sscanf(s.c_str(), "comp=%d;sink=%d;", &comp, &sink) != 2) return false; size_t p = s.find("steps="); if (p == std::string::npos) return false; p += 6;
         while (p < s.size()) { if (s[p] == 'R') { st.push_back({1, 0, 0}); p += 2; } else if (s[p] == 'W') { size_t sz; int c; if (sscanf(s.c_str() + p, "W%zuc%d,", &sz, &c) != 2) return false; st.push_back({0, sz, c}); p = s.find(',', p) + 1; } else break; } return true; };
     auto emit_dir = a.kv.count("emit") ? a.kv["emit"] : std::string();
+    if (!a.replay.empty() && slurp(a.replay).find("export=") != std::string::npos) { std::string s = slurp(a.replay); s = s.substr(s.find("export=")); int comp, sink, n, kind; if (sscanf(s.c_str(), "export=1;comp=%d;sink=%d;n=%d;kind=%d", &comp, &sink, &n, &kind) != 4) return done(2);
+        Pool rp(1, 900); rp.run(1, [&](uint64_t, Result& R) { std::vector<CV> out; run_export(comp, sink, n, kind, R, out); for (auto& v : out) R.violation("comp|" + v.key, v.what, s); },
+                               [&](uint64_t, const std::string& d, Result& R) { R.violation(std::string("comp|crash|export|") + crash_key(d), d.substr(0, 800), s); }, total); return done(total.viol.empty() ? 0 : 1); }
     if (!a.replay.empty()) { std::string s = slurp(a.replay); int comp, sink; std::vector<Step> st; if (!parse(s, comp, sink, st)) return done(2);
         Pool rp(1, 600); rp.run(1, [&](uint64_t, Result& R) { std::vector<CV> out; run_seq(comp, sink, st, R, out); for (auto& v : out) R.violation("comp|" + v.key, v.what, s); },
                                [&](uint64_t, const std::string& d, Result& R) { R.violation(std::string("comp|crash|") + (comp == 1 ? "gzip" : "xz") + "|" + crash_key(d), d.substr(0, 800), s); }, total); return done(total.viol.empty() ? 0 : 1); }
     std::vector<size_t> sizes = {0, 1, 2, 2047, 2048, 2049, 65536, 1 << 20};
     std::vector<Step> alpha; for (size_t s : sizes) for (int c = 0; c < 4; c++) { if (s <= 2 && c > 1) continue; if (s == (1 << 20) && (c == 1 || c == 3) && !T) continue; alpha.push_back({0, s, c}); } alpha.push_back({1, 0, 0});
     int D = T ? 3 : 2;
-    struct Task { int comp, sink; std::vector<Step> st; bool expand; };
+    struct Task { int comp, sink; std::vector<Step> st; bool expand; int exp_n = 0, exp_kind = 0; };
     std::vector<Task> tasks;
     for (int comp = 1; comp <= 2; comp++) for (int sink = 0; sink < 2; sink++) {
         tasks.push_back({comp, sink, {}, false});
@@ -105,11 +152,20 @@ int main(int argc, char** argv) {
       if (!T) chunks = {1, 100, 2048, 2976, 3000, 3500, 4096, 4097, 8192, 65536};
       size_t total_bytes = 600u << 10;
       for (int comp = 1; comp <= 2; comp++) for (int sink = 0; sink < 2; sink++) for (size_t c : chunks) for (int cls : {1, 2}) { if (!T && sink == 1 && (c == 1 || c == 100)) continue; if (c <= 3 && comp == 2 && cls == 1) continue;
-          std::vector<Step> st; for (size_t done_ = 0; done_ < total_bytes; done_ += c) st.push_back({0, std::min(c, total_bytes - done_), cls}); tasks.push_back({comp, sink, st, false}); } }
+          std::vector<Step> st; for (size_t done_ = 0; done_ < total_bytes; done_ += c) st.push_back({0, std::min(c, total_bytes - done_), cls}); tasks.push_back({comp, sink, st, false}); }
+      // mixed-entropy data, for which deflate closes large blocks often: these chunkings reach passes that consume only a part of the chunk
+      // (the output space of size + size/3 + 128 runs out while the chunk straddles a window slide) - see the gz_partial_input_passes counter
+      std::vector<size_t> mchunks = T ? std::vector<size_t>{100, 1000, 2040, 2049, 3000, 5000, 7000, 10000, 12000} : std::vector<size_t>{3000, 7000, 10000};
+      for (int comp = 1; comp <= 2; comp++) for (int sink = 0; sink < 2; sink++) for (size_t c : mchunks) { size_t tb = (T && comp == 1) ? (4u << 20) : total_bytes; if (!T && comp == 2 && c != 7000) continue;
+          std::vector<Step> st; for (size_t done_ = 0; done_ < tb; done_ += c) st.push_back({0, std::min(c, tb - done_), 4}); tasks.push_back({comp, sink, st, false}); }
+      // end to end through the exporter (chunks of 2040..2048 bytes as the encoder flushes them)
+      for (int comp = 1; comp <= 2; comp++) for (int sink = 0; sink < 2; sink++) for (int kind = 0; kind < 3; kind++) { if (!T && (kind == 1 || (comp == 2 && sink == 1))) continue; Task t{comp, sink, {}, false}; t.exp_n = T ? 60000 : 25000; t.exp_kind = kind; tasks.push_back(t); } }
     Pool pool(a.jobs, 900);
     pool.run(tasks.size(), [&](uint64_t ti, Result& R) {
         if (a.expired()) { R.deadline_hit = true; return; }
         const Task& t = tasks[ti];
+        if (t.exp_n) { std::string rep = "export=1;comp=" + std::to_string(t.comp) + ";sink=" + std::to_string(t.sink) + ";n=" + std::to_string(t.exp_n) + ";kind=" + std::to_string(t.exp_kind); set_note(rep); std::vector<CV> out; run_export(t.comp, t.sink, t.exp_n, t.exp_kind, R, out);
+            R.count("traces"); R.count("nontrivial"); R.count("export_runs"); for (auto& v : out) R.violation("comp|" + v.key, v.what + " [" + rep + "]", rep); R.outcome(std::string("export-") + (t.comp == 1 ? "gz" : "xz") + (out.empty() ? ":ok" : ":viol")); R.sample(rep); return; }
         auto exec = [&](const std::vector<Step>& st) { std::string rep = "comp=" + std::to_string(t.comp) + ";sink=" + std::to_string(t.sink) + ";steps=" + steps_str(st); set_note(rep); std::vector<CV> out; run_seq(t.comp, t.sink, st, R, out); R.count("traces"); if (!st.empty()) R.count("nontrivial");
             for (auto& v : out) R.violation("comp|" + v.key, v.what + " [" + rep + "]", rep); R.outcome(std::string(t.comp == 1 ? "gz" : "xz") + (t.sink ? "-fd" : "-name") + (out.empty() ? ":ok" : ":viol")); if (R.n["traces"] % 257 == 5) R.sample(rep); };
         if (!t.expand) { exec(t.st); return; }
